@@ -244,8 +244,10 @@ def run_seq(spec, vals, ctx, report_single=True):
             first = next((o for o in outs if o[0] == "ok"), None)
             # "first accepting alternative": in evaluation order, or in declared order - the statement fixes neither
             first_decl = next((o for o in (a.c(v0) for a in alts_declared) if o[0] == "ok"), None)
-            if any(o[0] == "EXC" for o in outs):
-                pass            # an alternative's conversion protocol raised: not covered by the law
+            if any(o[0] == "EXC" for o in outs) or c[0] == "EXC":
+                # an alternative's conversion protocol raised (alone, or inside the compound: int(inf) in a CInt
+                # alternative surfaces as OverflowError from the compound): not covered by the law
+                ctx.label("compound-passthrough")
             elif first is None and c[0] == "ok":
                 problem = ("compound/accept", "compound accepts %r -> %r but no alternative alone accepts" % (v, c[1]))
             elif first is not None and c[0] != "ok":
